@@ -202,6 +202,53 @@ def _emit(run, f, db, okk, okmsg, badmsg, site, rule='R-TERM.chain'):
         run.violation(rule, inst, f.loc, badmsg, site=site)
 
 
+def check_reserve_before_construct(run, db):
+    """an element of a joint_array is constructed only in memory the joint stack has already granted: on every path through a
+    constructor each builder::create() is covered by a reservation made before it - the delegation to the allocate-only constructor
+    (all n elements), a joint_stack::allocate() whose result was tested non-null, or a joint_stack::bump() whose result was tested true
+    (one element each).  A construction in front of its bump writes the element behind the block when the bump then fails."""
+    n = 0
+    INF = 10 ** 9
+    for f in db.find(cls_t='joint_array'):
+        if f.kind != 'ctor' or f.pattern:
+            continue
+        if not any(t.get('short') == 'create' and 'builder' in t.get('cls', '') for e, t in flow.call_events(f)):
+            continue
+        n += 1
+        probs = set()
+        try:
+            traces = fwd.trace(f, db=db, roles={})
+        except sym.PathLimit as ex:
+            run.broke(str(ex))
+            continue
+        for p in traces:
+            credit = 0
+            for st in p:
+                if st['kind'] == 'ev':
+                    e = st['e']
+                    if e['ev'] == 'init' and e.get('delegating'):
+                        credit = INF
+                    t0 = top_term(e)
+                    if isinstance(t0, dict) and t0.get('k') == 'call' and t0.get('short') == 'create' and 'builder' in t0.get('cls', ''):
+                        if credit < 1:
+                            probs.add('`%s` constructs an element before the joint stack has granted its memory (the bump / allocation that reserves it comes later or is not tested)' % tstr(t0)[:50])
+                        elif credit < INF:
+                            credit -= 1
+                elif st['kind'] == 'br':
+                    for a, tk in fwd.split_condition(st['cond'], st['taken']):
+                        for sub in subterms(a):
+                            if isinstance(sub, dict) and sub.get('k') == 'call' and sub.get('short') in ('bump', 'allocate') and 'joint_stack' in sub.get('cls', ''):
+                                # the path has found the result true / non-null (`if (!p)`, `p == nullptr`, a bool local ... any spelling)
+                                if common.nonnull_on_path([(sym.canon(a), tk)], sym.canon(sub)) is True and credit < INF:
+                                    credit += 1
+        inst = '%s [%s]' % (f.display, db.config)
+        if probs:
+            run.violation('R-JOINT.reserve', inst, f.loc, '; '.join(sorted(probs)[:2]), site={'function': 'joint_array::<ctor>', 'role': 'memory reserved before construction'})
+        else:
+            run.ok('R-JOINT.reserve', inst, f.loc, 'every create() is covered by an earlier successful reservation')
+    return n
+
+
 def check_create_handler(run, db):
     """the block is also freed whole when construction fails: joint_ptr::create releases the allocation exactly once on every
     exceptional path with the terms it was allocated with (the shared guard rule of C20, reported here as R-JOINT.handler)"""
@@ -220,6 +267,7 @@ def run(run):
     run.rule('R-TERM.chain', 'allocation terms travel unchanged to the release', floor=8)
     run.rule('R-JOINT.bound', 'joint stack bounded by end_; overflow becomes out_of_fixed_memory', floor=6)
     run.rule('R-JOINT.lifo', 'joint_allocator frees only the last allocation', floor=1)
+    run.rule('R-JOINT.reserve', 'joint_array constructs an element only in memory the joint stack has already granted', floor=2)
     run.rule('R-JOINT.reset', 'reset destroys, releases with the allocation terms, nulls', floor=2)
     run.explanation = ('The release size is not stored anywhere: it is re-derived from the joint stack. The chain of terms from the '
                        'allocation to the release is checked link by link. Disjointness/alignment of the pieces is C01/C02 on the underlying fixed_memory_stack.')
@@ -234,5 +282,6 @@ def run(run):
             run.broke('joint chain functions not found [%s]' % cfg)
         if check_lifo(run, db) < 4:
             run.broke('joint_allocator / joint_array functions not found [%s]' % cfg)
+        check_reserve_before_construct(run, db)
         if check_create_handler(run, db) < 1:
             run.broke('joint_ptr::create not instantiated [%s]' % cfg)
